@@ -5,7 +5,7 @@
      READ    = (shdr sBOOL) | sbodyok | (sbodyerr sBOOL)
      VERDICT = snil | (sstat zCODE xMSG CAUSE) | (spanic CAUSE) | (schain VERDICT ...)  plugins of the stage in order
      CAUSE   = (stext xBYTES) | slib
-     HANDLER = (sret) | (sret (zCODE xMSG CAUSE)) | (spanic CAUSE)
+     HANDLER = (sret) | (sret (zCODE xMSG CAUSE)) | (spanic CAUSE) | (sencpanic CAUSE)
      W       = sok | sclosed | srefused          (OK reply, error frame, fallback frame)
      sFIXED  = strue: tree with fix bd93e2a (dispatch_now), sfalse: dispatch_prefix
    observations = ((sknown|sunknown ...) ((zSEQ STATUS) ...) sDISCONNECTED)
@@ -100,7 +100,8 @@ Definition dec_handler (v : val) : option handler_outcome :=
   | VL [t] => if sym_eqb t "ret" then Some (HReturn None) else None
   | VL [t; x] =>
       if sym_eqb t "ret" then option_map (fun s => HReturn (Some s)) (dec_status x)
-      else if sym_eqb t "panic" then option_map HPanic (dec_cause x) else None
+      else if sym_eqb t "panic" then option_map HPanic (dec_cause x)
+      else if sym_eqb t "encpanic" then option_map HEncodePanic (dec_cause x) else None
   | _ => None
   end.
 
